@@ -389,7 +389,7 @@ impl MemoryMappedInput {
 
     /// Reads a slice of bytes (zero-copy when possible)
     pub fn read_slice(&mut self, len: usize) -> Result<Vec<u8>> {
-        let end_pos = self.position + len;
+        let end_pos = self.position.saturating_add(len);
         if end_pos > self.file_size as usize {
             return Err(ZiporaError::out_of_bounds(end_pos, self.file_size as usize));
         }
@@ -438,7 +438,7 @@ impl MemoryMappedInput {
 
     /// Reads a slice of bytes without copying (zero-copy, memory-mapped only)
     pub fn read_slice_zero_copy(&mut self, len: usize) -> Result<&[u8]> {
-        let end_pos = self.position + len;
+        let end_pos = self.position.saturating_add(len);
         if end_pos > self.file_size as usize {
             return Err(ZiporaError::out_of_bounds(end_pos, self.file_size as usize));
         }
@@ -481,7 +481,7 @@ impl MemoryMappedInput {
 
     /// Peeks at bytes without advancing the position (zero-copy when possible)
     pub fn peek_slice(&self, len: usize) -> Result<Vec<u8>> {
-        let end_pos = self.position + len;
+        let end_pos = self.position.saturating_add(len);
         if end_pos > self.file_size as usize {
             return Err(ZiporaError::out_of_bounds(end_pos, self.file_size as usize));
         }
@@ -520,7 +520,7 @@ impl MemoryMappedInput {
 
     /// Peeks at bytes without advancing the position (zero-copy, memory-mapped only)
     pub fn peek_slice_zero_copy(&self, len: usize) -> Result<&[u8]> {
-        let end_pos = self.position + len;
+        let end_pos = self.position.saturating_add(len);
         if end_pos > self.file_size as usize {
             return Err(ZiporaError::out_of_bounds(end_pos, self.file_size as usize));
         }
@@ -614,7 +614,7 @@ impl DataInput for MemoryMappedInput {
     }
 
     fn skip(&mut self, n: usize) -> Result<()> {
-        let new_pos = self.position + n;
+        let new_pos = self.position.saturating_add(n);
         self.seek(new_pos)
     }
 }
